@@ -298,8 +298,8 @@ def rule_y_state(ctx):
                                 if inner.get("adt") in (ctx.roles.S, "griddle::map::HashMap", "griddle::set::HashSet"):
                                     R.viol("%s:mutates-in-parallel" % cb.path, cc.where(), "closure %s, run by rayon (%s), calls %s on a shared map" % (cb.path, c.tname, cc.tname))
     R.notes.append("%d rayon-module bodies, %d closures handed to rayon" % (n, m))
-    if n < 20:
-        R.anchor("rayon-bodies", "expected >= 20 bodies in the rayon modules, found %d" % n)
+    if n < 10:
+        R.anchor("rayon-bodies", "expected >= 10 bodies in the rayon modules, found %d" % n)
     return R
 
 
@@ -331,28 +331,35 @@ def rule_y_order(ctx):
                 why.append("%s @ %s reorders or consumes from the back" % (c.tname, c.where()))
             if c.method == "append" and "LinkedList" in (c.tname or ""):
                 p0, p1 = c.arg_path(0), c.arg_path(1)
-                ok = p0 is not None and p1 is not None and p0.root == 2 and p1.root == 3
+                first = 2 if b.kind == "Closure" else 1     # closures have their environment as parameter 1
+                ok = p0 is not None and p1 is not None and p0.root == first and p1.root == first + 1
                 ret_ok = False
                 for d in b.defs().get(0, []):
                     if d[1] == "assign" and d[2]["rv"]["k"] == "use":
                         q = b.op_path(d[2]["rv"]["op"])
-                        if q is not None and q.root == 2:
+                        if q is not None and q.root == first:
                             ret_ok = True
                 if not (ok and ret_ok):
                     why.append("the reduction does not append the right-hand chunk list to the left-hand one and return the left (order of chunks would change) @ %s" % c.where())
         if uses_collect:
             # the chunk list is consumed by forward iteration feeding Extend::extend
-            ext = [c for c in ctx.calls(b) if c.method == "extend" and not b.is_cleanup(c.loc.bb)]
-            nx = [c for c in ctx.calls(b) if (c.method == "next" and "linked_list" in (c.tname or "").lower()) or
-                  (c.method == "pop_front" and "LinkedList" in (c.tname or ""))]
-            if not ext or not nx:
+            ext = [(bd, c) for bd in [b] + ctx.facts.closures_of(b) for c in ctx.calls(bd) if c.method == "extend" and not bd.is_cleanup(c.loc.bb)]
+            fwd = [c for c in ctx.calls(b) if (c.method in ("next", "for_each", "fold", "try_for_each") and "linked_list" in (c.tname or "").lower()) or
+                   (c.method == "pop_front" and "LinkedList" in (c.tname or ""))]
+            if not ext or not fwd:
                 why.append("the collected chunks are not consumed by a forward iteration feeding extend()")
             else:
-                s, _ = b.slice_back(ext[0].loc, ext[0].args[1:])
-                if nx[0].loc not in s:
-                    why.append("extend() is not fed the chunk just taken from the front of the list")
+                bd, e0 = ext[0]
+                if bd is b:
+                    s, _ = b.slice_back(e0.loc, e0.args[1:])
+                    if not any(f.loc in s for f in fwd):
+                        why.append("extend() is not fed the chunk just taken from the front of the list")
+                else:
+                    q = e0.arg_path(1)
+                    if q is None or not (2 <= q.root <= bd.arg_count):
+                        why.append("extend() inside the per-chunk closure is not fed the closure's chunk parameter")
         R.inst(fn=b.path, verdict="ok" if not why else "VIOLATION")
         if why:
             R.viol(b.path, b.where(Loc(0, 0)), "; ".join(why))
-    R.floor(5, "bodies of the parallel-collect path")
+    R.floor(3, "bodies of the parallel-collect path")
     return R
